@@ -135,6 +135,21 @@ Theorem C14_url_for_inverse_partial : forall o f pat rt vals,
 Proof. exact url_for_inverse_plain. Qed.
 Print Assumptions C14_url_for_inverse_partial.
 
+(* FULL (soundness of matching): every value in match_info lies in the class of its hole, for all
+   templates and paths; in particular a plain {name} never captures '/', '{' or '}' (before
+   _unquote_path_safe), so it stays inside one path segment as documented. *)
+Theorem C14_match_values_in_class : forall its p d, match_items its p = Some d ->
+  Forall (fun nv => exists c mn, In (Hole (fst nv) c mn) its /\ forallb (cls_mem c) (snd nv) = true) d.
+Proof. exact match_values_in_class. Qed.
+Print Assumptions C14_match_values_in_class.
+
+Theorem C14_default_hole_stays_in_segment : forall its p d n v,
+  match_items its p = Some d -> In (n, v) d ->
+  (forall c mn, In (Hole n c mn) its -> c = CGood) ->
+  ~ In 47 v /\ ~ In 123 v /\ ~ In 125 v.
+Proof. exact default_hole_stays_in_segment. Qed.
+Print Assumptions C14_default_hole_stays_in_segment.
+
 Example C14_example_good_for :
   let pat := [Lit [47; 97; 47]; Hole [120] CGood 1%nat; Lit [47; 98]; Hole [121] CDigit 1%nat] in
   let vals := [([120], [113; 45; 113]); ([121], [52; 50])] in
